@@ -745,6 +745,8 @@ def deserialize_problem_as_url(
     width = int(m[2])
     height = int(m[3])
     body = m[4]
+    if width <= 0 or height <= 0:
+        raise ValueError("board size must be positive")
 
     if allowed_puzzles is not None:
         if isinstance(allowed_puzzles, list):
